@@ -34,6 +34,9 @@ CH["C03"] = dict(level="exploration", design="3/C03", technique="deterministic s
 CH["C04"] = dict(level="exploration", design="3/C04", technique="deterministic simulation: tape-driven scheduler over writer/reader/peer tasks with post-deposit yields; direct event-log oracle + porcupine linearizability cross-check; same plans on raw-futex gates under the race detector",
    text="Seeded search over request sequences x peer answer modes (at once/delayed/at end/duplicated) x segmentation x interleavings of W (marshal, transport writes, bookkeeping), R (read, decode, lookup) and peer P, including P answering and R decoding inside W's write call. Oracle on the ordered event log: every first response decoded after its request's last byte was deposited must be matched with the request's response type; a second response for the same id must be rejected; none lost. Cross-check with porcupine against a sequential map. Race phase: identical plans with scheduler gates built from raw futex syscalls in //go:norace code, so the detector sees only the library's own synchronisation; a report naming two go-oryx-lib accesses is a violation.",
    note="Trusted: deposit step bookkeeping of the sim transport; porcupine; Go race detector (reports are true positives; absence covers only access pairs that occurred).")
+CH["C20"] = dict(level="exploration", design="3/C20", technique="deterministic simulation: public API with the real sampler goroutine inside a testing/synctest bubble (fake clock), scripted counter source with stalls, reference model of the statement",
+   text="Seeded search over (time, counter) histories (growth, bursts, stalls, jumps, resets, wrap-around) x source stalls that make the sampling instants irregular x Average() calls, 45 s to 2 h of simulated time per run. The meter runs through its public API with its real 10 s sampler goroutine on a fake clock. Oracle: for gap-free sampling of a non-decreasing counter every window reports exactly increase/W when due and is unchanged otherwise (x8/1000 for kbit/s); otherwise a changed rate must equal increase/W against some earlier observation at least W old (0 when the counter is not above it); always finite and non-negative; Average = total increase / time since the first non-zero Average() observation; getters before Start are refused, none panics afterwards. Sampling, not proof.",
+   note="Trusted: testing/synctest fake clock (go1.26.8); the model reads the statement, not the code (nominal window length, modular signed increase).")
 def main():
     import os
     extra = {}
